@@ -79,7 +79,7 @@ func DialURI(uri *URI, cfg *DialConfig) (*Client, error) { //nolint:cyclop
 		dtlsCfg := cfg.DTLSConfig // Copy
 		dtlsCfg.ServerName = uri.Host
 
-		udpAddr, err := net.ResolveUDPAddr("udp", addr)
+		udpAddr, err := nw.ResolveUDPAddr("udp", addr)
 		if err != nil {
 			return nil, fmt.Errorf("failed to resolve UDPAddr: %w", err)
 		}
